@@ -3,7 +3,7 @@
 //! symbol definitions with the reference core signatures, and forwarding definitions of the
 //! canonical built-ins the async runtime links against (hook H1 turns them into C symbols).
 
-use crate::c8_world::{callback_sig, Sig, Variant, IFACE};
+use crate::c8_world::{callback_sig, Sig, Variant, IFACE, RES_IFACE};
 use crate::gen::Config;
 use crate::harness::{shim_def, tramp_arm, Gen};
 use crate::rsindex::{Index, ModPath};
@@ -13,6 +13,9 @@ use std::fmt::Write;
 pub const IDX_TASK_RETURN: usize = 1000;
 pub const IDX_PAUSE: usize = 2000;
 pub const IDX_DRIVE_RETURN: usize = 2001;
+pub const IDX_ASK: usize = 2002;
+pub const IDX_RES_CTOR: usize = 2003;
+pub const IDX_RES_DROP: usize = 2004;
 pub const IDX_BUILTIN: usize = 3000;
 pub const ARM_CALLBACK: usize = 9000;
 pub const ARM_DRIVE: usize = 9001;
@@ -69,7 +72,37 @@ pub fn generate(ix: &Index, cfg: Config, v: Variant, sigs: &[Sig]) -> Result<Str
     let mut arms = String::new();
     let mut shims = String::new();
     let unit: syn::Type = syn::parse_str("()").unwrap();
-    for s in sigs {
+    for s in sigs.iter().filter(|s| s.res) {
+        // owned handles of the imported resource in the parameter of an (async) import: the
+        // guest builds the value itself; at every pending poll of the call future the host's
+        // explorer decides whether the guest drops the future (cancel before / after start)
+        let name = &s.name;
+        let isig = ix.fns.get(&(vec!["t".to_string(), "t".to_string(), "r".to_string()], name.clone())).ok_or_else(|| format!("import {name}: function not found"))?;
+        if isig.is_async != v.async_import() {
+            return Err(format!("import {name}: async={} but variant {} expects {}", isig.is_async, v.name(), v.async_import()));
+        }
+        let body = if v.async_import() {
+            format!(
+                "    let mut fut = Box::pin(R::{name}(x));\n    let r = std::future::poll_fn(|cx| match fut.as_mut().poll(cx) {{\n        std::task::Poll::Ready(v) => std::task::Poll::Ready(Some(v)),\n        std::task::Poll::Pending => if rt::ask(2) == 1 {{ std::task::Poll::Ready(None) }} else {{ std::task::Poll::Pending }},\n    }}).await;\n    drop(fut);\n    if let Some(v) = r {{ rt::observe(&V::U(v as u64)); }}"
+            )
+        } else {
+            format!("    let r = R::{name}(x);\n    rt::observe(&V::U(r as u64));")
+        };
+        writeln!(
+            drivers,
+            "#[allow(unused)]\nasync fn run_imp_{k}() {{\n    use crate::bindings::t::t::r as R;\n    use std::future::Future;\n    let x = {};\n{body}\n}}",
+            s.build,
+            k = s.k
+        )
+        .unwrap();
+        writeln!(drive_arms, "            {} => run_imp_{}().await,", s.k, s.k).unwrap();
+        if v.async_import() {
+            shims.push_str(&shim_def(s.k, RES_IFACE, &format!("[async-lower]{name}"), &s.import_sig(true)));
+        } else {
+            shims.push_str(&shim_def(s.k, RES_IFACE, name, &s.import_sig(false)));
+        }
+    }
+    for s in sigs.iter().filter(|s| !s.res) {
         let name = &s.name;
         // ---- export
         let tsig = ix
@@ -153,6 +186,10 @@ pub fn generate(ix: &Index, cfg: Config, v: Variant, sigs: &[Sig]) -> Result<Str
     let none_to_i32 = CoreSig { params: vec![], results: vec![CoreTy::I32], params_indirect: false, result_indirect: false };
     let nothing = CoreSig { params: vec![], results: vec![], params_indirect: false, result_indirect: false };
     shims.push_str(&shim_def(IDX_PAUSE, "t:t/p", "[async-lower]pause", &none_to_i32));
+    let i32_to_i32 = CoreSig { params: vec![CoreTy::I32], results: vec![CoreTy::I32], params_indirect: false, result_indirect: false };
+    let i32_to_none = CoreSig { params: vec![CoreTy::I32], results: vec![], params_indirect: false, result_indirect: false };
+    shims.push_str(&shim_def(IDX_RES_CTOR, RES_IFACE, "[constructor]thing", &i32_to_i32));
+    shims.push_str(&shim_def(IDX_RES_DROP, RES_IFACE, "[resource-drop]thing", &i32_to_none));
     shims.push_str(&shim_def(IDX_DRIVE_RETURN, "[export]t:t/d", "[task-return]drive", &nothing));
     arms.push_str(&tramp_arm(ARM_CALLBACK, &callback_sig()));
     arms.push_str(&tramp_arm(
